@@ -3,12 +3,17 @@
 from __future__ import annotations
 
 import ast
+import copy
 
+from ..cfg import CFG, forward
+from ..kinds import has_call, reach, tv
 from ..model import AnalysisError, chain, unparse
+from ..normalize import expanded, single_assignments
 from ..persist import IDENTITY, PersistEngine
 from ..report import RuleResult
 from ..tables import WriterTables
 from ..textile import FormatDoc
+from ._c03_engine import RobustPersistEngine, const_route, gateway_args, has_gateway_kw
 
 
 def families(ctx):
@@ -29,20 +34,63 @@ def families(ctx):
 def engine(ctx) -> PersistEngine:
     if "persist_engine" not in ctx.cache:
         depth = 4 if ctx.tier == "quick" else 12
-        ctx.cache["persist_engine"] = PersistEngine(ctx.p, WriterTables(ctx.p), max_depth=depth)
+        ctx.cache["persist_engine"] = RobustPersistEngine(ctx.p, WriterTables(ctx.p), max_depth=depth)
     return ctx.cache["persist_engine"]
 
 
-def is_set_once(setter, fld) -> bool:
-    """First statement raises when the backing field is already set."""
-    body = [s for s in setter.node.body if not (isinstance(s, ast.Expr) and isinstance(s.value, ast.Constant))]
-    if not body or not isinstance(body[0], ast.If):
+def _with_expanded_tests(fn_node):
+    """A copy of the function in which every branch condition has its single-assignment locals replaced by their
+    defining expressions (`cur = self._x; if cur is not None:` reads like `if self._x is not None:`)."""
+    defs = single_assignments(fn_node)
+    node = copy.deepcopy(fn_node)
+    if not defs:
+        return node
+
+    class T(ast.NodeTransformer):
+        def visit_If(self, n):
+            self.generic_visit(n)
+            n.test = expanded(n.test, fn_node, defs)
+            return n
+
+        visit_While = visit_If
+
+        def visit_Assert(self, n):
+            n.test = expanded(n.test, fn_node, defs)
+            return n
+
+    node = T().visit(node)
+    ast.fix_missing_locations(node)
+    return node
+
+
+def _no_normal_exit_when(fn, facts) -> bool:
+    """Under `facts` (three-valued pruning of the branch conditions, see sa/kinds.py) no path of `fn` reaches its normal
+    exit, although some path does without them: the function raises because of the facts."""
+    if not any(isinstance(x, (ast.Raise, ast.Assert)) for x in ast.walk(fn.node)):
         return False
-    first = body[0]
-    if not any(isinstance(s, ast.Raise) for s in first.body):
+    g = CFG(_with_expanded_tests(fn.node))
+    sn = fn.self_name or "self"
+
+    def refuted(n):
+        # an assert whose condition is false under the facts never continues
+        return n.kind == "assert" and tv(n.ast, sn, facts) is False
+
+    if g.exit not in reach(g, [g.entry]):
         return False
-    t = unparse(first.test)
-    return t in (f"self.{fld} is not None", f"self.{fld[1:]} is not None", f"hasattr(self, '{fld}')")
+    return g.exit not in reach(g, [g.entry], sn, facts, avoid=refuted)
+
+
+def is_set_once(setter, fld, ctx=None) -> bool:
+    """The setter raises whenever the backing field is already set (whatever the spelling: first statement or later,
+    nested `if` or guard clause, the field read into a local first, tested through the getter or with hasattr; with
+    `ctx`, also in an extracted private helper): the attribute is not assignable on a stored entity."""
+    cache = ctx.cache.setdefault("c03_set_once", {}) if ctx is not None else {}
+    if (setter, fld) not in cache:
+        fn = ctx.view(setter) if ctx is not None else setter
+        sn = setter.self_name or "self"
+        facts = {f"notnone:{sn}.{fld}": True, f"notnone:{sn}.{fld[1:]}": True, "hasattr:" + fld: True}
+        cache[(setter, fld)] = _no_normal_exit_when(fn, facts)
+    return cache[(setter, fld)]
 
 
 def component_domain(K):
@@ -53,7 +101,28 @@ def component_domain(K):
     return None
 
 
-def derived_props(eng, K, base_domain):
+def _self_reads(ctx, fn) -> frozenset:
+    """Names of the attributes of `self` the function reads, private helpers included."""
+    cache = ctx.cache.setdefault("c03_self_reads", {})
+    if fn not in cache:
+        sn = fn.self_name
+        node = fn.node
+        # only pay for the normalised view when the body calls a private helper at all
+        if any(isinstance(c, ast.Call) and (getattr(c.func, "attr", None) or getattr(c.func, "id", "") or "").startswith("_")
+               for c in ast.walk(fn.node)):
+            node = ctx.view(fn, consts=False).node
+        selves = {sn}
+        for k, v in single_assignments(node).items():
+            if isinstance(v, ast.Name) and v.id == sn:
+                selves.add(k)  # a helper's receiver parameter bound to self / `me = self`
+        cache[fn] = frozenset(
+            n.attr for n in ast.walk(node)
+            if isinstance(n, ast.Attribute) and isinstance(n.value, ast.Name) and n.value.id in selves
+        )
+    return cache[fn]
+
+
+def derived_props(ctx, K, base_domain):
     """Properties whose getter derives its value from a persisted property."""
     out = set()
     seen = set()
@@ -66,16 +135,8 @@ def derived_props(eng, K, base_domain):
             seen.add(name)
             if name in base_domain or name in IDENTITY or pr.setter is None or pr.getter is None:
                 continue
-            sn = pr.getter.self_name
-            for n in ast.walk(pr.getter.node):
-                if (
-                    isinstance(n, ast.Attribute)
-                    and isinstance(n.value, ast.Name)
-                    and n.value.id == sn
-                    and n.attr in base_domain
-                ):
-                    out.add(name)
-                    break
+            if _self_reads(ctx, pr.getter) & set(base_domain):
+                out.add(name)
     return out
 
 
@@ -93,7 +154,7 @@ def rule_w1(ctx) -> RuleResult:
     for K in families(ctx):
         comp = component_domain(K)
         dom = comp if comp is not None else eng.domain(K)
-        dom_all = set(dom) | (derived_props(eng, K, dom) if comp is None else set())
+        dom_all = set(dom) | (derived_props(ctx, K, dom) if comp is None else set())
         for attr in sorted(dom_all):
             m = K.lookup(attr)
             if not m or m[1] != "prop":
@@ -103,7 +164,7 @@ def rule_w1(ctx) -> RuleResult:
                 continue
             setter = pr.setter
             fld = "_" + attr
-            if is_set_once(setter, fld):
+            if is_set_once(setter, fld, ctx):
                 res.notes.append(f"{setter.qualname}: set-once setter, no obligation")
                 continue
             summ = eng.analyse(setter, K)
@@ -184,11 +245,10 @@ DEFERRED_FIELDS = {"_concatenated_attributes", "_property_group_ids", "_attribut
 
 
 def _none_asserted(fn, fld) -> bool:
-    """The method starts from `assert self.<fld> is None`: a default initialisation, recomputed identically on every load."""
-    for n in ast.walk(fn.node):
-        if isinstance(n, ast.Assert) and unparse(n.test) == f"self.{fld} is None":
-            return True
-    return False
+    """The method only proceeds when `self.<fld> is None` (an assert or a raising guard, whatever its spelling): a default
+    initialisation, recomputed identically on every load."""
+    sn = fn.self_name or "self"
+    return _no_normal_exit_when(fn, {f"notnone:{sn}.{fld}": True})
 
 
 def _is_noop_by_design(setter) -> bool:
@@ -233,21 +293,21 @@ def rule_w2(ctx) -> RuleResult:
             res.find("H5Writer", "update_field", f"KEY_MAP key {k} has no dispatcher branch", t.writer.methods["update_field"].where,
                      f"{k} is settable on {[c.name for c in owners][:3]} but update_field sends it to write_attributes")
     for fn, call in update_attribute_sites(ctx):
-        if len(call.args) < 2:
+        recv, a1 = gateway_args(p, call)
+        if recv is None or a1 is None:
             continue
-        a1 = call.args[1]
-        if not isinstance(a1, ast.Constant):
+        route = const_route(p, fn, a1, at=call)
+        if route is None:
             res.instances.append(f"{fn.qualname}:{call.lineno} dynamic route {unparse(a1)}")
             continue
-        route = a1.value
         where = f"{fn.module.relpath}:{call.lineno}"
         # receiver classes
-        recv = call.args[0]
+        recv = expanded(recv, fn.node)
         classes = []
         if isinstance(recv, ast.Name) and recv.id == fn.self_name and fn.cls is not None:
             classes = [c for c in p.subclasses(fn.cls)]
         ok = True
-        if route in t.array_routes and len(call.args) == 2 and not any(kw.arg == "values" for kw in call.keywords):
+        if route in t.array_routes and not has_gateway_kw(p, call, "channel") and not has_gateway_kw(p, call, "values"):
             for K in classes:
                 m = K.lookup(route)
                 # only classes on which this function is the one reached
@@ -266,19 +326,7 @@ def rule_w2(ctx) -> RuleResult:
     # the array branch must evaluate the public getter before it reads the backing field: setters such as Curve.parts
     # null the backing field and rely on the getter to recompute it at write time
     wa = t.writer.methods["write_array_attribute"]
-    attr_p = wa.params[3]
-    priv = [c for c in ast.walk(wa.node) if isinstance(c, ast.Call) and unparse(c.func) == "getattr" and len(c.args) >= 2 and isinstance(c.args[1], ast.JoinedStr)
-            and unparse(c.args[1]).startswith("f'_{")]
-    direct = [a for a in ast.walk(wa.node) if isinstance(a, ast.Attribute) and a.attr == "__dict__"]
-    ok = bool(priv) and not direct
-    for c in priv:
-        guard = None
-        for i in ast.walk(wa.node):
-            if isinstance(i, ast.If) and any(x is c for s_ in i.body for x in ast.walk(s_)):
-                guard = i
-        pub = guard is not None and any(isinstance(x, ast.Call) and unparse(x.func) == "getattr" and len(x.args) >= 2 and unparse(x.args[1]) in (attr_p, f"f'{{{attr_p}}}'")
-                                        for x in ast.walk(guard.test))
-        ok = ok and pub
+    ok = _getter_before_backing_field(ctx, wa)
     res.inst("write_array_attribute evaluates the public getter before reading the private backing field", nontrivial=True, ok=ok)
     if not ok:
         res.find("H5Writer", "write_array_attribute", "backing field read without evaluating the public getter first", wa.where,
@@ -319,6 +367,70 @@ def rule_w2(ctx) -> RuleResult:
     return res
 
 
+def _attr_name_kind(e, attr_p):
+    """'pub' when the expression is the attribute name itself, 'priv' when it is "_" + the attribute name (any spelling:
+    f-string, concatenation, str.format, %-format), else None."""
+    if isinstance(e, ast.Name):
+        return "pub" if e.id == attr_p else None
+
+    def is_attr(x):
+        return isinstance(x, ast.Name) and x.id == attr_p
+
+    if isinstance(e, ast.Call) and isinstance(e.func, ast.Name) and e.func.id == "str" and len(e.args) == 1 and is_attr(e.args[0]):
+        return "pub"
+    if isinstance(e, ast.JoinedStr):
+        parts = [v for v in e.values if not (isinstance(v, ast.Constant) and v.value == "")]
+        if len(parts) == 1 and isinstance(parts[0], ast.FormattedValue) and is_attr(parts[0].value):
+            return "pub"
+        if len(parts) == 2 and isinstance(parts[0], ast.Constant) and parts[0].value == "_" and isinstance(parts[1], ast.FormattedValue) \
+                and is_attr(parts[1].value):
+            return "priv"
+        return None
+    if isinstance(e, ast.BinOp) and isinstance(e.op, ast.Add) and isinstance(e.left, ast.Constant) and e.left.value == "_" \
+            and _attr_name_kind(e.right, attr_p) == "pub":
+        return "priv"
+    if isinstance(e, ast.BinOp) and isinstance(e.op, ast.Mod) and isinstance(e.left, ast.Constant) and e.left.value == "_%s":
+        r = e.right.elts[0] if isinstance(e.right, ast.Tuple) and len(e.right.elts) == 1 else e.right
+        return "priv" if is_attr(r) else None
+    if isinstance(e, ast.Call) and isinstance(e.func, ast.Attribute) and e.func.attr == "format" and isinstance(e.func.value, ast.Constant) \
+            and e.func.value.value in ("_{}", "_{0}") and len(e.args) == 1 and is_attr(e.args[0]):
+        return "priv"
+    return None
+
+
+def _getter_before_backing_field(ctx, wa) -> bool:
+    """In H5Writer.write_array_attribute (helpers expanded): the private backing field `_<attribute>` of the entity is read,
+    only through getattr, and every path from the entry to such a read evaluates the public getter `<attribute>` first."""
+    v = ctx.view(wa)
+    if len(wa.params) < 4:
+        raise AnalysisError("H5Writer.write_array_attribute: unexpected signature")
+    ent_p, attr_p = wa.params[2], wa.params[3]
+    defs = single_assignments(v.node)
+
+    def reads(kind):
+        def pred(c):
+            if not (isinstance(c.func, ast.Name) and c.func.id == "getattr" and len(c.args) >= 2):
+                return False
+            if unparse(expanded(c.args[0], v.node, defs)) != ent_p:
+                return False
+            return _attr_name_kind(expanded(c.args[1], v.node, defs), attr_p) == kind
+        return pred
+
+    for x in ast.walk(v.node):
+        # the instance dictionary read directly: no getter can have run
+        if isinstance(x, ast.Attribute) and x.attr == "__dict__":
+            return False
+        if isinstance(x, ast.Call) and isinstance(x.func, ast.Name) and x.func.id == "vars":
+            return False
+    g = CFG(v.node)
+    priv_nodes = [n for n in g.nodes if has_call(n, reads("priv"))]
+    if not priv_nodes:
+        return False
+    pub = reads("pub")
+    free = reach(g, [g.entry], avoid=lambda n: has_call(n, pub))
+    return all(has_call(n, pub) or n not in free for n in priv_nodes)
+
+
 # in-memory knobs whose setters call update_attribute although the format has no slot for them
 NOT_PERSISTED_BY_DESIGN = {
     "default_collocation_distance": "in-memory tolerance of Drillhole, not part of the geoh5 format; the persistence call is a harmless no-op",
@@ -356,9 +468,10 @@ def rule_w3(ctx) -> RuleResult:
     p = ctx.p
     hier = _hierarchy_classes(ctx)
     for fn, call in update_attribute_sites(ctx):
-        if not call.args:
+        recv = gateway_args(p, call)[0]
+        if recv is None:
             continue
-        recv = call.args[0]
+        recv = expanded(recv, fn.node)
         where = f"{fn.module.relpath}:{call.lineno}"
         classes = None
         if isinstance(recv, ast.Name) and recv.id == fn.self_name and fn.cls is not None:
@@ -395,16 +508,64 @@ def _hierarchy_classes(ctx):
     fh = p.cls("H5Writer").methods.get("fetch_handle")
     if fh is None:
         raise AnalysisError("anchor H5Writer.fetch_handle not found")
+    view = ctx.view(fh)
+
+    def cls_of(k):
+        if isinstance(k, (ast.Name, ast.Attribute)):
+            r = p.resolve_expr(fh.module, k)
+            if r and r[0] == "class":
+                return r[1]
+        return None
+
+    def is_str(v):
+        return isinstance(v, ast.Constant) and isinstance(v.value, str)
+
+    def pairs_of(lit):
+        """[(class, container name)] when the literal is a table from entity classes to container names."""
+        prs = None
+        if isinstance(lit, ast.Dict) and lit.keys and all(k is not None for k in lit.keys):
+            prs = list(zip(lit.keys, lit.values))
+        elif isinstance(lit, (ast.List, ast.Tuple)) and lit.elts and all(isinstance(e, (ast.Tuple, ast.List)) and len(e.elts) == 2 for e in lit.elts):
+            prs = [(e.elts[0], e.elts[1]) for e in lit.elts]
+        if not prs or not all(is_str(v) and cls_of(k) is not None for k, v in prs):
+            return None
+        return [(cls_of(k), v.value) for k, v in prs]
+
+    # the table: a literal {<class>: "<container name>"} / ((<class>, "<name>"), ...) used by the function or one of its
+    # helpers — written in place, bound to a local, or hoisted to module / class level (whatever it is called)
+    lits = [n for n in ast.walk(view.node) if isinstance(n, (ast.Dict, ast.List, ast.Tuple))]
+    bound = {a.arg for a in ast.walk(view.node) if isinstance(a, ast.arg)} | {
+        n.id for n in ast.walk(view.node) if isinstance(n, ast.Name) and isinstance(n.ctx, ast.Store)}
+    for n in ast.walk(view.node):
+        if isinstance(n, ast.Name) and isinstance(n.ctx, ast.Load) and n.id not in bound:
+            r = p.resolve_name(fh.module, n.id)
+            if r and r[0] == "assign" and isinstance(r[1][1], (ast.Dict, ast.List, ast.Tuple)):
+                lits.append(r[1][1])
+        elif isinstance(n, ast.Attribute) and isinstance(n.value, ast.Name) and n.value.id in ("cls", "self", fh.cls.name):
+            m = fh.cls.lookup(n.attr)
+            if m and m[1] == "assign" and isinstance(m[2], (ast.Dict, ast.List, ast.Tuple)):
+                lits.append(m[2])
     out = []
-    for n in ast.walk(fh.node):
-        # the table: a dict literal {<class>: "<container name>"} bound to a local (whatever it is called)
-        if isinstance(n, ast.Assign) and isinstance(n.value, ast.Dict) and n.value.keys and all(
-            isinstance(v, ast.Constant) and isinstance(v.value, str) for v in n.value.values
-        ) and all(isinstance(k, (ast.Name, ast.Attribute)) for k in n.value.keys):
-            for k in n.value.keys:
-                r = p.resolve_expr(fh.module, k)
-                if r and r[0] == "class":
-                    out.append(r[1])
+    for lit in lits:
+        for c, _name in pairs_of(lit) or []:
+            if c not in out:
+                out.append(c)
+    if len(out) < 6:
+        # the same table spelt as a chain of tests: `if isinstance(entity, <class>): ... "<container name>" ...`
+        ent_p = fh.params[2] if len(fh.params) > 2 else None
+        defs = single_assignments(view.node)
+        chain_cls = []
+        for n in ast.walk(view.node):
+            if not (isinstance(n, ast.If) and isinstance(n.test, ast.Call) and isinstance(n.test.func, ast.Name)
+                    and n.test.func.id == "isinstance" and len(n.test.args) == 2):
+                continue
+            if unparse(expanded(n.test.args[0], view.node, defs)) != ent_p:
+                continue
+            c = cls_of(n.test.args[1])
+            if c is not None and any(is_str(x) for st in n.body for x in ast.walk(st)) and c not in chain_cls:
+                chain_cls.append(c)
+        # a class tested only to pick an intermediate container ("Types") is a base of the classes of the table proper
+        out = [c for c in chain_cls if not any(o is not c and c in o.mro for o in chain_cls)]
     if len(out) < 6:
         raise AnalysisError("H5Writer.fetch_handle: hierarchy table not recognised")
     ctx.cache["hierarchy"] = out
@@ -429,6 +590,64 @@ def _param_classes(p, fn, name):
     return None
 
 
+FORWARDING = {"update_field", "update_concatenated_field", "update_attributes"}
+
+
+def _forwards_pred(ctx, fn, ent, attr, must, depth=0):
+    """Predicate on calls of `fn` (a normalised view): the call hands (ent, attr) unchanged to a writer — directly
+    (`<concatenator>.update_attributes(ent, attr)`), through a wrapper given the writer function first
+    (`self._io_call(H5Writer.update_field, ent, attr, ...)`), or through a method of the same class that could not be
+    expanded in place and forwards its corresponding parameters on every normal path (`must`) / on some path (not `must`)."""
+    defs = single_assignments(fn.node)
+
+    def text(e):
+        return unparse(expanded(e, fn.node, defs))
+
+    def pred(c):
+        pos = [text(a) for a in c.args if not isinstance(a, ast.Starred)]
+        kws = {k.arg: text(k.value) for k in c.keywords if k.arg is not None}
+        fname = c.func.attr if isinstance(c.func, ast.Attribute) else getattr(c.func, "id", "")
+        if fname not in FORWARDING:
+            if pos and pos[0].split(".")[-1] in FORWARDING:
+                pos = pos[1:]  # the writer function travels as the first argument of a wrapper
+            else:
+                return _helper_forwards(c, pos, kws)
+        if pos[:2] == [ent, attr]:
+            return True
+        return (pos[:1] == [ent] or ent in kws.values()) and attr in kws.values() and len(pos) <= 1
+
+    def _helper_forwards(c, pos, kws):
+        if depth >= 2 or fn.cls is None or not (isinstance(c.func, ast.Attribute) and isinstance(c.func.value, ast.Name)
+                                                and c.func.value.id in ("self", "cls", fn.self_name or "")):
+            return False
+        m = fn.cls.lookup(c.func.attr)
+        if not (m and m[1] == "method") or m[2].node is fn.node:
+            return False
+        callee = m[2]
+        a = callee.node.args
+        names = [x.arg for x in a.posonlyargs + a.args]
+        if callee.kind != "staticmethod":
+            names = names[1:]
+        bound = dict(zip(names, pos))
+        bound.update({k: v for k, v in kws.items() if k in names or k in {x.arg for x in a.kwonlyargs}})
+        e2 = [k for k, v in bound.items() if v == ent]
+        a2 = [k for k, v in bound.items() if v == attr]
+        if len(e2) != 1 or len(a2) != 1:
+            return False
+        rebound = {x.id for x in ast.walk(callee.node) if isinstance(x, ast.Name) and isinstance(x.ctx, (ast.Store, ast.Del))}
+        if e2[0] in rebound or a2[0] in rebound:
+            return False
+        cv = ctx.view(callee)
+        sub = _forwards_pred(ctx, cv, e2[0], a2[0], must, depth + 1)
+        g = CFG(cv.node)
+        hits = [n for n in g.nodes if has_call(n, sub)]
+        if not must:
+            return bool(hits)
+        return bool(hits) and g.exit not in reach(g, [g.entry], avoid=lambda n: has_call(n, sub))
+
+    return pred
+
+
 def rule_w4(ctx) -> RuleResult:
     res = RuleResult(
         "C03.W4",
@@ -439,81 +658,89 @@ def rule_w4(ctx) -> RuleResult:
         floor=4,
     )
     p = ctx.p
-    from ..cfg import CFG, forward
+    ua0 = p.func("Workspace.update_attribute")
+    if len(ua0.params) < 3:
+        raise AnalysisError("Workspace.update_attribute: unexpected signature")
+    ent, attr = ua0.params[1], ua0.params[2]
+    # 1. the decision to forward depends on entity.on_file only, and when it is set every path forwards (entity, attribute).
+    #    Decided on paths (helpers expanded, conditions alias-expanded, branches pruned by the truth of entity.on_file),
+    #    so nested `if`, guard clause with early return, flipped branches and extracted helpers all read the same.
+    ua = ctx.view(ua0)
+    g = CFG(_with_expanded_tests(ua.node))
+    may_fwd = _forwards_pred(ctx, ua, ent, attr, must=False)
+    must_fwd = _forwards_pred(ctx, ua, ent, attr, must=True)
 
-    ua = p.func("Workspace.update_attribute")
-    ent, attr = ua.params[1], ua.params[2]
-    # 1. body is `if entity.on_file:` and every branch forwards (entity, attribute)
-    body = [s for s in ua.node.body if not (isinstance(s, ast.Expr) and isinstance(s.value, ast.Constant))]
-    ok = len(body) == 1 and isinstance(body[0], ast.If) and unparse(body[0].test) == f"{ent}.on_file" and not body[0].orelse
+    def is_fwd(n):
+        return has_call(n, must_fwd)
+
+    on_file = f"{ent}.on_file"
+    consulted = any(isinstance(x, ast.Attribute) and unparse(x) == on_file for n in g.nodes if n.kind == "test" for x in ast.walk(n.ast))
+    off = reach(g, [g.entry], ent, {"truthy:" + on_file: False})
+    ok = consulted and not any(has_call(n, may_fwd) for n in off)
     res.inst("update_attribute gated by entity.on_file only", ok=ok)
     if not ok:
-        res.find("Workspace", "update_attribute", "gate is not `if entity.on_file:`", ua.where,
+        res.find("Workspace", "update_attribute", "gate is not `if entity.on_file:`", ua0.where,
                  "the write-through gate changed shape; persistence may be skipped for stored entities")
     else:
-        inner = body[0].body
-        g = CFG(ast.FunctionDef(name="x", args=ua.node.args, body=inner, decorator_list=[], lineno=ua.node.lineno))
-        forwarding = {"update_field", "update_concatenated_field", "update_attributes"}
-
-        def transfer(node, st):
-            if node.ast is None or isinstance(node.ast, list):
-                return st
-            for n in ast.walk(node.ast):
-                if isinstance(n, ast.Call):
-                    names = [unparse(a) for a in n.args]
-                    fname = n.func.attr if isinstance(n.func, ast.Attribute) else ""
-                    target = names[0] if names else ""
-                    if (fname == "_io_call" and target.split(".")[-1] in forwarding and names[1:3] == [ent, attr]) or (
-                        fname in forwarding and names[:2] == [ent, attr]
-                    ):
-                        return True
-            return st
-
-        IN = forward(g, False, transfer, lambda a, b: a and b)
-        ok2 = IN.get(g.exit, False) is True
+        on = reach(g, [g.entry], ent, {"truthy:" + on_file: True}, avoid=is_fwd)
+        ok2 = g.exit not in on
         res.inst("every on_file path forwards (entity, attribute) to a writer", nontrivial=True, ok=ok2)
         if not ok2:
-            res.find("Workspace", "update_attribute", "a path does not forward (entity, attribute)", ua.where,
+            res.find("Workspace", "update_attribute", "a path does not forward (entity, attribute)", ua0.where,
                      "some path through the on_file branch reaches the end without calling update_field / "
                      "update_concatenated_field / Concatenator.update_attributes with the unchanged arguments")
-    # 2. on_file = True before every node-returning return of write_entity / write_entity_type
-    for spec, var in (("H5Writer.write_entity", "entity"), ("H5Writer.write_entity_type", "entity_type")):
-        fn = p.func(spec)
-        g = CFG(fn.node)
 
-        def transfer2(node, st, var=var):
-            if node.kind == "stmt" and isinstance(node.ast, ast.Assign):
-                for t in node.ast.targets:
-                    if unparse(t) == f"{var}.on_file" and unparse(node.ast.value) == "True":
+    def sets_on_file(fn_node, fdefs, var):
+        """transfer function: True after `<var>.on_file = True` (through any alias of <var>; setattr spelling included)"""
+        def is_var(e):
+            return unparse(expanded(e, fn_node, fdefs)) == var
+
+        def is_true(e):
+            e = expanded(e, fn_node, fdefs)
+            return isinstance(e, ast.Constant) and e.value is True
+
+        def transfer(node, st):
+            if node.kind != "stmt" or node.ast is None:
+                return st
+            a = node.ast
+            if isinstance(a, (ast.Assign, ast.AnnAssign)) and a.value is not None and is_true(a.value):
+                for t in (a.targets if isinstance(a, ast.Assign) else [a.target]):
+                    if isinstance(t, ast.Attribute) and t.attr == "on_file" and is_var(t.value):
                         return True
+            if isinstance(a, ast.Expr) and isinstance(a.value, ast.Call) and isinstance(a.value.func, ast.Name) and a.value.func.id == "setattr" \
+                    and len(a.value.args) == 3 and is_var(a.value.args[0]) and isinstance(a.value.args[1], ast.Constant) \
+                    and a.value.args[1].value == "on_file" and is_true(a.value.args[2]):
+                return True
             return st
+        return transfer
 
-        IN = forward(g, False, transfer2, lambda a, b: a and b)
+    # 2. on_file = True before every node-returning return of write_entity / write_entity_type
+    for spec in ("H5Writer.write_entity", "H5Writer.write_entity_type"):
+        fn0 = p.func(spec)
+        if len(fn0.params) < 3:
+            raise AnalysisError(f"{spec}: unexpected signature")
+        var = fn0.params[2]
+        fn = ctx.view(fn0)
+        g = CFG(fn.node)
+        IN = forward(g, False, sets_on_file(fn.node, single_assignments(fn.node), var), lambda a, b: a and b)
         for node in g.nodes:
             if node.kind == "return" and node.ast is not None and unparse(node.ast) != "None":
                 ok3 = IN.get(node) is True
                 res.inst(f"{spec}: return at line {node.lineno} preceded by {var}.on_file = True", nontrivial=True, ok=ok3)
                 if not ok3:
-                    res.find("H5Writer", fn.name, f"return {unparse(node.ast)[:40]} without {var}.on_file = True", fn.where,
+                    res.find("H5Writer", fn0.name, f"return {unparse(node.ast)[:40]} without {var}.on_file = True", fn0.where,
                              "a stored entity keeps on_file False: every later setter silently skips persistence",
                              line=node.lineno)
     # 3. concatenated path
-    fn = p.func("Concatenator.add_save_concatenated")
+    fn0 = p.func("Concatenator.add_save_concatenated")
+    fn = ctx.view(fn0)
     g = CFG(fn.node)
-    child = fn.params[1]
-
-    def transfer3(node, st):
-        if node.kind == "stmt" and isinstance(node.ast, ast.Assign):
-            for t in node.ast.targets:
-                if unparse(t) == f"{child}.on_file" and unparse(node.ast.value) == "True":
-                    return True
-        return st
-
-    IN = forward(g, False, transfer3, lambda a, b: a and b)
+    child = fn0.params[1]
+    IN = forward(g, False, sets_on_file(fn.node, single_assignments(fn.node), child), lambda a, b: a and b)
     ok4 = IN.get(g.exit) is True
     res.inst("Concatenator.add_save_concatenated sets child.on_file = True on all normal paths", nontrivial=True, ok=ok4)
     if not ok4:
-        res.find("Concatenator", "add_save_concatenated", "child.on_file = True not on all paths", fn.where,
+        res.find("Concatenator", "add_save_concatenated", "child.on_file = True not on all paths", fn0.where,
                  "a saved concatenated entity keeps on_file False and later setters skip persistence")
     return res
 
@@ -562,13 +789,16 @@ def rule_inplace(ctx) -> RuleResult:
     t = engine(ctx).t
     # attributes whose persistence is deferred by design (flushed by the concatenator's save path: C04.DEFER decides those)
     routes = (set(t.value_routes) | set(t.array_routes)) - {f.lstrip("_") for f in DEFERRED_FIELDS}
-    from ..cfg import CFG
-    from ..kinds import reach
-
     for fn in p.all_functions():
         reads = [n for n in ast.walk(fn.node) if isinstance(n, ast.Attribute) and n.attr in routes and isinstance(n.ctx, ast.Load)]
         if not reads:
             continue
+        defs = single_assignments(fn.node)
+
+        def canon(e, fn=fn, defs=defs):
+            """text of a receiver with local aliases (`obj = child`) undone: two spellings of one object compare equal"""
+            return unparse(expanded(e, fn.node, defs)) if defs else unparse(e)
+
         # aliases: name = <recv>.<route> (the getter's own object, no copy)
         alias = {}
         for n in ast.walk(fn.node):
@@ -583,7 +813,7 @@ def rule_inplace(ctx) -> RuleResult:
                     else:
                         break
                 if isinstance(v, ast.Attribute) and v.attr in routes and isinstance(v.ctx, ast.Load):
-                    alias.setdefault(n.targets[0].id, []).append((unparse(v.value), v.attr, n.lineno))
+                    alias.setdefault(n.targets[0].id, []).append((unparse(v.value), v.attr, n.lineno, canon(v.value)))
         rebound = {}
         for n in ast.walk(fn.node):
             if isinstance(n, ast.Assign):
@@ -592,13 +822,13 @@ def rule_inplace(ctx) -> RuleResult:
                         rebound.setdefault(tg.id, []).append(n.lineno)
 
         def target_of(base, lineno):
-            """(receiver text, route) if `base` denotes a getter's object."""
+            """(receiver text, route, canonical receiver text) if `base` denotes a getter's object."""
             while isinstance(base, ast.Call) and isinstance(base.func, ast.Attribute) and base.func.attr in ("get", "setdefault"):
                 base = base.func.value
                 while isinstance(base, ast.Subscript):
                     base = base.value
             if isinstance(base, ast.Attribute) and base.attr in routes:
-                return unparse(base.value), base.attr
+                return unparse(base.value), base.attr, canon(base.value)
             if isinstance(base, ast.Name) and base.id in alias:
                 cands = [a for a in alias[base.id] if a[2] < lineno]
                 if not cands:
@@ -606,7 +836,7 @@ def rule_inplace(ctx) -> RuleResult:
                 a = max(cands, key=lambda x: x[2])
                 if any(a[2] < rb < lineno for rb in rebound.get(base.id, [])):
                     return None
-                return a[0], a[1]
+                return a[0], a[1], a[3]
             return None
 
         g = None
@@ -643,29 +873,33 @@ def rule_inplace(ctx) -> RuleResult:
                 tt = target_of(b, st.lineno)
                 if tt:
                     muts.append((tt, unparse(st.value)[:40]))
-            for (recv, route), text in muts:
-                if fn.kind in ("getter", "setter") and fn.prop == route and recv == (fn.self_name or "self"):
+            for (recv, route, rc), text in muts:
+                if fn.kind in ("getter", "setter") and fn.prop == route and rc == (fn.self_name or "self"):
                     continue  # the accessor builds / normalises its own value
                 if g is None:
                     g = CFG(fn.node)
 
-                def stores(n, recv=recv, route=route):
+                def stores(n, rc=rc, route=route):
                     a = n.ast
                     if a is None or isinstance(a, list):
                         return False
                     for x in ast.walk(a) if not isinstance(a, (ast.If, ast.For, ast.While, ast.With, ast.Try)) else []:
-                        if isinstance(x, ast.Assign) and any(isinstance(tg, ast.Attribute) and tg.attr == route and unparse(tg.value) == recv for tg in x.targets):
+                        if isinstance(x, ast.Assign) and any(isinstance(tg, ast.Attribute) and tg.attr == route and canon(tg.value) == rc for tg in x.targets):
                             return True
-                        if isinstance(x, ast.Call) and isinstance(x.func, ast.Attribute) and x.func.attr in ("update_attribute", "save_attribute", "save_entity") and x.args \
-                                and (unparse(x.args[0]) == recv or x.func.attr == "save_attribute"):
+                        if isinstance(x, ast.Call) and isinstance(x.func, ast.Name) and x.func.id == "setattr" and len(x.args) == 3 \
+                                and isinstance(x.args[1], ast.Constant) and x.args[1].value == route and canon(x.args[0]) == rc:
                             return True
+                        if isinstance(x, ast.Call) and isinstance(x.func, ast.Attribute) and x.func.attr in ("update_attribute", "save_attribute", "save_entity"):
+                            first = gateway_args(p, x)[0] if x.func.attr == "update_attribute" else (x.args[0] if x.args else None)
+                            if first is not None and (canon(first) == rc or x.func.attr == "save_attribute"):
+                                return True
                     return False
 
                 nodes = [n for n in g.nodes if n.stmt is st or n.ast is st]
                 if not nodes:
                     continue
                 ok = all(g.exit not in reach(g, [m for m, _ in n.succ], avoid=stores) for n in nodes)
-                if not ok and fn.cls is not None and recv == (fn.self_name or "self"):
+                if not ok and fn.cls is not None and rc == (fn.self_name or "self"):
                     # a helper: every caller in the class family stores the attribute back after the call
                     callers = []
                     for other in p.all_functions():
